@@ -170,6 +170,9 @@ def _halflife_to_int(halflife):
 
 def _times_to_int_array(times):
     times, _ = _convert_timestamp_to_tz_unaware(times)
+    if times.dtype.kind == "M":
+        # the halflife is converted to nanoseconds, so must the times be
+        times = times.astype("datetime64[ns]")
     return times.view(np.int64)
 
 
@@ -442,7 +445,7 @@ def _ema_grouped_timed(
             # a null key belongs to no group (and must not index the state arrays)
             out[i] = np.nan
             continue
-        if last_seen_times[k] > 0:
+        if residual_weights[k] > 0:
             hl = (times[i] - last_seen_times[k]) / halflife
             beta = np.exp(-np.log(2) * hl)
             residuals[k] *= beta
